@@ -92,6 +92,18 @@ fn async_lattice(tier: Tier, want_probe_only: bool) -> Vec<Cfg> {
             }
         }
     }
+    // filter lengths that are not a multiple of 8 (every remainder), through the constructors
+    // that round them up and pick the kernel for the running CPU
+    if !want_probe_only {
+        for l in [9usize, 10, 11, 12, 13, 14, 15, 20, 100] {
+            for kind in [Kind::SI, Kind::SO] {
+                if q && l > 13 && l != 100 {
+                    continue;
+                }
+                out.push(Cfg::sinc(kind, if l % 2 == 0 { 0.8 } else { 1.6 }, 2.0, 8, l, 2, Interp::Cubic, Kernel::Dispatch).with_channels(2));
+            }
+        }
+    }
     out
 }
 
@@ -783,6 +795,39 @@ fn c10_sweep_item(tier: Tier, ratio: f64, journal: Option<&JournalFile>) -> Resu
             }
         }
     }
+    // silence written as -0.0 (all seven types, every interpolation): a history that compares
+    // equal to zero everywhere is still a history, after reset() no bit of it may be left
+    if ratio == C10_SWEEP[0] {
+        let mut cfgs: Vec<Cfg> = Vec::new();
+        for chunk in [1usize, 8, 64] {
+            for d in Degree::ALL {
+                cfgs.push(Cfg::fast(Kind::FI, 0.8, 2.0, chunk, d).with_channels(2));
+                cfgs.push(Cfg::fast(Kind::FO, 1.3, 2.0, chunk, d).with_channels(2));
+            }
+            for interp in [Interp::Nearest, Interp::Linear, Interp::Quadratic, Interp::Cubic] {
+                cfgs.push(Cfg::sinc(Kind::SI, 0.8, 2.0, chunk, 8, 2, interp, Kernel::Dispatch).with_channels(2));
+                cfgs.push(Cfg::sinc(Kind::SO, 1.3, 2.0, chunk, 8, 2, interp, Kernel::Dispatch).with_channels(2));
+            }
+            cfgs.push(Cfg::fft(Kind::XI, 3, 2, 6 * chunk, 2).with_channels(2));
+            cfgs.push(Cfg::fft(Kind::XO, 2, 3, 6 * chunk, 2).with_channels(2));
+            cfgs.push(Cfg::fft(Kind::XX, 3, 2, 6 * chunk, 1).with_channels(2));
+        }
+        for cfg in cfgs {
+            for hist in [vec![Op::P, Op::P, Op::Z], vec![Op::P, Op::PM(1, false), Op::P, Op::Z, Op::P]] {
+                let mut t = Tracked::<f64>::new(&cfg, Signal::NegZero, Props::only("C10"))?;
+                states += 1;
+                for (i, op) in hist.iter().enumerate() {
+                    let (_, viols) = t.step(*op, true);
+                    transitions += 1;
+                    for v in viols {
+                        if v.prop == "C10" && found.len() < 40 {
+                            found.push(json!({"prop": "C10", "sig": v.sig, "detail": format!("{} (input: silence written as -0.0)", v.detail), "cfg": cfg.to_json(), "history": history_text(&hist[..=i]), "sample_type": "f64-negzero"}));
+                        }
+                    }
+                }
+            }
+        }
+    }
     Ok(json!({
         "label": format!("reset sweep ratio {:?}", ratio), "states": states, "transitions": transitions,
         "outcomes": [format!("sweep:{:?}", ratio)], "found": found,
@@ -906,10 +951,10 @@ fn cycles_item(journal: Option<&JournalFile>) -> Result<Value, String> {
             }
         }
     }
-    // more channels than any fixed-size per-call bookkeeping is likely to provide for (33, 48):
+    // more channels than any fixed-size per-call bookkeeping is likely to provide for (33, 48, 72):
     // a plain walk with the heap counted around every call (the engines keep channel sets in
     // 32-bit words, so this width is walked directly on the resampler)
-    for nch in [33usize, 48] {
+    for nch in [33usize, 48, 72] {
         for cfg in [
             Cfg::sinc(Kind::SI, 48000.0 / 44100.0, 2.0, 16, 8, 2, Interp::Cubic, Kernel::Dispatch).with_channels(nch),
             Cfg::sinc(Kind::SO, 48000.0 / 44100.0, 2.0, 16, 8, 2, Interp::Cubic, Kernel::Dispatch).with_channels(nch),
@@ -1333,6 +1378,8 @@ impl Check for CtrlCheck {
                 Box::new(crate::twin::TwinSys::quiet(&cfg)?)
             } else if self.id == "C17" {
                 Box::new(crate::twin::TwinSys::new(&cfg)?)
+            } else if ty == "f64-negzero" {
+                Box::new(Tracked::<f64>::new(&cfg, Signal::NegZero, spec.props)?)
             } else if ty == "f64-nan" {
                 Box::new(Tracked::<f64>::new(&cfg, Signal::NoisePoisonLast(cfg.channels - 1), spec.props)?)
             } else if ty == "f32" {
